@@ -586,6 +586,24 @@ func (f *frame) runLoop(li *loopInfo, order []*ssa.BasicBlock) {
 	f.autoInductionFacts(li, phis, hv, entryVals, reachH)
 	// 5. body
 	f.runRegion(order, li.blocks, h, &blockEntry{reach: reachH, heap: heap1, conds: make([]Term, len(keys))})
+	// 5b. exit clauses: proved on every edge leaving the loop, in the state of the exiting iteration
+	if spec != nil && len(spec.Exits) > 0 {
+		for b := range li.blocks {
+			for si, s := range b.Succs {
+				if li.blocks[s] {
+					continue
+				}
+				es := f.edges[edgeKey{b, si}]
+				if es == nil || es.cond.IsFalse() {
+					continue
+				}
+				env := f.loopEnv(li, hv, es.heap)
+				for j, ex := range spec.Exits {
+					f.obligeClause("loop-exit", fmt.Sprintf("%s.exit%d@from%d", lname, j+1, b.Index), env, ex, es.cond, f.pos(lastPos(b)), false)
+				}
+			}
+		}
+	}
 	// 6. back edges
 	for i, k := range keys {
 		if !inside(k.from) {
@@ -706,10 +724,8 @@ func (f *frame) loopEnv(li *loopInfo, phiVals map[*ssa.Phi]Val, heap *heapState)
 			}
 		}
 		// 1c. address-taken locals
-		if a, ok := f.debugAddr[name]; ok {
-			if have, ok := f.vals[a]; ok {
-				return f.sval(have, a.Type()), true
-			}
+		if v, ok := f.addrVar(name, heap); ok {
+			return v, true
 		}
 		// 2. debug-named values
 		cands := f.debug[name]
